@@ -6,7 +6,12 @@ package main
 import (
 	"fmt"
 	"strings"
+
+	"golang.org/x/tools/go/ssa"
 )
+
+type ssaFunction = ssa.Function
+type ssaCallInstruction = ssa.CallInstruction
 
 func (r *rwRT) ruleFilePasses() {
 	c := r.c
@@ -74,6 +79,9 @@ func (r *rwRT) ruleFilePasses() {
 				default:
 					seq = append(seq, "pass:"+name)
 				}
+			case e.Kind == "call" && e.Fn != nil && inRw(e.Fn) && reachesFn(e.Fn, "rewriteYieldFunc", 4):
+				// the generator pass performed by a direct call instead of a traversal
+				seq = append(seq, "pass:yield")
 			case e.Kind == "call" && isSymNamed(e.Callee, "printer"):
 				seq = append(seq, "print")
 			}
@@ -135,4 +143,32 @@ func (r *rwRT) ruleFilePasses() {
 			"per-file field(s) not re-initialised before the first pass: "+strings.Join(missing, ", ")+" (state of the previous file leaks into this one)")
 		break
 	}
+}
+
+// reachesFn: does fn statically call (within depth) a function named target?
+func reachesFn(fn interface{ String() string }, target string, depth int) bool {
+	f, ok := fn.(*ssaFunction)
+	if !ok || f == nil || depth < 0 {
+		return false
+	}
+	for _, b := range f.Blocks {
+		for _, ins := range b.Instrs {
+			if call, ok := ins.(ssaCallInstruction); ok {
+				if callee := call.Common().StaticCallee(); callee != nil {
+					if callee.Name() == target {
+						return true
+					}
+					if inRw(callee) && reachesFn(bodyOf(callee), target, depth-1) {
+						return true
+					}
+				}
+			}
+		}
+	}
+	for _, a := range f.AnonFuncs {
+		if reachesFn(a, target, depth-1) {
+			return true
+		}
+	}
+	return false
 }
